@@ -122,7 +122,9 @@ func (s *muxerSegmenter) writeAV1(
 
 			if !bytes.Equal(codec.SequenceHeader, obu) {
 				s.pendingParamsChange = true
+				track.stream.mutex.Lock()
 				codec.SequenceHeader = obu
+				track.stream.mutex.Unlock()
 			}
 		}
 	}
@@ -170,27 +172,39 @@ func (s *muxerSegmenter) writeVP9(
 
 		if v := h.Width(); v != codec.Width {
 			s.pendingParamsChange = true
+			track.stream.mutex.Lock()
 			codec.Width = v
+			track.stream.mutex.Unlock()
 		}
 		if v := h.Height(); v != codec.Height {
 			s.pendingParamsChange = true
+			track.stream.mutex.Lock()
 			codec.Height = v
+			track.stream.mutex.Unlock()
 		}
 		if h.Profile != codec.Profile {
 			s.pendingParamsChange = true
+			track.stream.mutex.Lock()
 			codec.Profile = h.Profile
+			track.stream.mutex.Unlock()
 		}
 		if h.ColorConfig.BitDepth != codec.BitDepth {
 			s.pendingParamsChange = true
+			track.stream.mutex.Lock()
 			codec.BitDepth = h.ColorConfig.BitDepth
+			track.stream.mutex.Unlock()
 		}
 		if v := h.ChromaSubsampling(); v != codec.ChromaSubsampling {
 			s.pendingParamsChange = true
+			track.stream.mutex.Lock()
 			codec.ChromaSubsampling = v
+			track.stream.mutex.Unlock()
 		}
 		if h.ColorConfig.ColorRange != codec.ColorRange {
 			s.pendingParamsChange = true
+			track.stream.mutex.Lock()
 			codec.ColorRange = h.ColorConfig.ColorRange
+			track.stream.mutex.Unlock()
 		}
 	}
 
@@ -241,19 +255,25 @@ func (s *muxerSegmenter) writeH265(
 		case h265.NALUType_VPS_NUT:
 			if !bytes.Equal(codec.VPS, nalu) {
 				s.pendingParamsChange = true
+				track.stream.mutex.Lock()
 				codec.VPS = nalu
+				track.stream.mutex.Unlock()
 			}
 
 		case h265.NALUType_SPS_NUT:
 			if !bytes.Equal(codec.SPS, nalu) {
 				s.pendingParamsChange = true
+				track.stream.mutex.Lock()
 				codec.SPS = nalu
+				track.stream.mutex.Unlock()
 			}
 
 		case h265.NALUType_PPS_NUT:
 			if !bytes.Equal(codec.PPS, nalu) {
 				s.pendingParamsChange = true
+				track.stream.mutex.Lock()
 				codec.PPS = nalu
+				track.stream.mutex.Unlock()
 			}
 		}
 	}
@@ -322,13 +342,17 @@ func (s *muxerSegmenter) writeH264(
 		case h264.NALUTypeSPS:
 			if !bytes.Equal(codec.SPS, nalu) {
 				s.pendingParamsChange = true
+				track.stream.mutex.Lock()
 				codec.SPS = nalu
+				track.stream.mutex.Unlock()
 			}
 
 		case h264.NALUTypePPS:
 			if !bytes.Equal(codec.PPS, nalu) {
 				s.pendingParamsChange = true
+				track.stream.mutex.Lock()
 				codec.PPS = nalu
+				track.stream.mutex.Unlock()
 			}
 		}
 	}
